@@ -27,6 +27,11 @@ type C09Payload struct {
 	// LateGroup (with First): this top-level group is added with AddGroup only
 	// after the first parse.
 	LateGroup string `json:"late_group,omitempty"`
+	// HelpOff (with First, fault = help request): the parser is declared and used
+	// once with HelpFlag; the program then clears the bit (Parser.Options is a
+	// public field) and the line with the help request is parsed. The built-in
+	// option is still there or it is not: either way the line is rejected.
+	HelpOff bool `json:"help_off,omitempty"`
 	// CompPanic: completion mode, and the word being completed belongs to a
 	// top-level option whose Completer panics; the words before it are a valid
 	// line. Whatever the library makes of the panic, no command may run.
@@ -40,7 +45,7 @@ func (propC09) ID() string { return "C09" }
 func c09Cfg() *DeclCfg {
 	return &DeclCfg{
 		Kinds: []string{"bool", "bool", "int", "int64", "uint", "float64", "string", "string", "duration", "[]int", "[]string", "map[string]int", "map[string]string",
-			"*int", "*bool", "func()", "func(string)", "func(int) error", "func() error", "um", "vv", "[]bool", "int8", "uint8", "uint16", "*um"},
+			"*int", "*bool", "func()", "func(string)", "func(int) error", "func() error", "um", "vv", "[]bool", "int8", "uint8", "uint16", "*um", "[]us", "us"},
 		MinOpts: 0, MaxOpts: 3, MaxGroups: 1, MaxSub: 1, MaxCmds: 4, MaxDepth: 4, Exec: true,
 		Env: true, Defaults: true, Required: true, Choices: true, Optional: true, Hidden: true, Pos: true, Namespaces: true, Aliases: true, Base: true, MultiByte: true,
 		ParserOpts: []uint{0, optHelpFlag, optHelpFlag | optPassDoubleDash, optHelpFlag | optPrintErrors | optPassDoubleDash, optHelpFlag | optIgnoreUnknown,
@@ -91,6 +96,9 @@ func (propC09) Gen(r *Rng, idx int, tier string) *Scenario {
 			p.LateGroup = sc.Decl.Groups[lr.Intn(len(sc.Decl.Groups))].Name
 		}
 	}
+	if sc.Decl.CmdHandler == "" && p.First == nil && r.Fork("latehandler").Chance(1, 5) {
+		sc.Decl.CmdHandler = "late-log"
+	}
 	// the fault-free twin tells which callees run
 	twin := c09Run(sc, p.Plan.argv(), nil, nil, "")
 	var twinCalls []Call
@@ -132,6 +140,9 @@ func (propC09) Gen(r *Rng, idx int, tier string) *Scenario {
 		if p.CompWhen == "unset-late" {
 			p.Faults = nil // the line is then expected to run like its twin
 		}
+	}
+	if p.First != nil && len(p.Faults) == 1 && p.Faults[0].Kind == "help" && p.Completion == "" && r.Fork("helpoff").Chance(1, 2) {
+		p.HelpOff = true
 	}
 	if p.CompPanic {
 		cpr := r.Fork("comppanic2")
@@ -247,6 +258,9 @@ func c09Run(sc *Scenario, argv []string, callee []CalleeFault, env map[string]st
 			for _, k := range sortedKeys(env) {
 				s2.Ops = append(s2.Ops, Op{Kind: "setenv", Key: k, Text: BStr(env[k])})
 			}
+		}
+		if sc.C09.HelpOff {
+			s2.Ops = append(s2.Ops, Op{Kind: "setopts", IniOpts: sc.Decl.Options &^ optHelpFlag})
 		}
 	}
 	op := Op{Kind: "parse", Argv: bstrs(argv)}
@@ -386,6 +400,17 @@ func c09Oracle(v *Verdict, d *DeclSpec, r *OpResult, target string, label string
 	case "forward":
 		wantHandler = 1
 		if isExec {
+			wantExec = 1
+		}
+	case "late-log":
+		// installed by the first option callback of this very line, if one ran
+		installed := false
+		for _, c := range r.Calls {
+			installed = installed || c.Kind == "callback"
+		}
+		if installed {
+			wantHandler = 1
+		} else if isExec {
 			wantExec = 1
 		}
 	}
@@ -541,12 +566,15 @@ func faultStillExpected(d *DeclSpec, p *Plan, f ArgFault, argv []string) bool {
 			return oi.O.Base == 0 && (oi.O.Kind == "int8" || oi.O.Kind == "uint8" || oi.O.Kind == "uint16") && argvHas(argv, f.Text)
 		}
 		b := baseKind(oi.O.Kind)
-		return strings.Contains(b, "int") || strings.Contains(b, "float") || b == "duration" || b == "um" || (b == "vv" && f.Expect == "expected argument")
+		return strings.Contains(b, "int") || strings.Contains(b, "float") || b == "duration" || b == "um" || b == "us" || (b == "vv" && f.Expect == "expected argument")
 	case "delete-arg":
 		oi, ok := ois[f.Opt]
 		return ok && onChain(oi) && !isBoolFlag(oi.O.Kind) && !oi.O.Optional
 	case "env-unconvertible":
 		oi, ok := ois[f.Opt]
+		if f.Expect == "invalid choice" {
+			return ok && len(oi.O.Choices) > 0 && oi.O.Env != "" && envFullOf(d, oi) == f.EnvKey
+		}
 		if ok && oi.O.Base != 0 && strings.HasSuffix(f.EnvVal, "12x") {
 			return false // a number in a base beyond 33
 		}
@@ -743,7 +771,7 @@ func (propC09) Judge(sc *Scenario) *Verdict {
 	// request - for which the documented behaviour is a rejection: whatever the
 	// parser made of it, no command may have run.
 	if len(p.Faults) == 1 && p.Faults[0].Callee == nil && p.Faults[0].Expect != "" && c09Enforced[p.Faults[0].Kind] && p.Completion == "" &&
-		(p.First == nil || (p.Faults[0].Kind == "env-unconvertible" && !planMentions(p.First, p.Faults[0].Opt))) && // (what an earlier parse on the same parser leaves behind - options that count as given - is not modelled)
+		(p.First == nil || (p.Faults[0].Kind == "env-unconvertible" && !planMentions(p.First, p.Faults[0].Opt)) || (p.HelpOff && p.Faults[0].Kind == "help" && !unknownAccepted(d))) && // (what an earlier parse on the same parser leaves behind - options that count as given - is not modelled)
 		faultStillExpected(d, p.Plan, p.Faults[0], argv) &&
 		fr.Err == "" && !fr.Exit && fr.Panic == "" && !fr.Budget && !fr.Inconclusive {
 		execs, handlers := execCalls(fr.Calls)
